@@ -1,9 +1,14 @@
 #!/bin/sh
 # mk_worktree.sh <dir>: scratch git worktree of /repo with its (untracked) build files,
-# relocated so that `make && make check` work inside it.
+# relocated so that `make && make check` work inside it.  Serialised by a lock file:
+# concurrent `git worktree add` calls on one repository race.
 set -e
 D="$1"
-git -C /repo worktree add -q "$D" HEAD
+(
+  flock 9
+  git -C /repo worktree prune >/dev/null 2>&1 || true
+  git -C /repo worktree add -q "$D" HEAD
+) 9>/tmp/pv-worktree.lock
 rsync -a --exclude .git /repo/ "$D"/
 grep -rlI "/repo" "$D" --exclude-dir=.git --exclude=.git 2>/dev/null | while read f; do sed -i "s#/repo#$D#g" "$f"; done
 rm -f "$D"/src/pdsh/*.o "$D"/src/common/*.o "$D"/src/modules/*.o "$D"/src/modules/*.lo "$D"/src/pdsh/pdsh
